@@ -146,7 +146,7 @@ def parse_template(path):
                 rest = m.group(2)
                 # path ends at first opt token; opts are known keywords
                 toks = split_opts(rest)
-                optkw = ("subst(", "fragment(", "addgenerics(", "sigsubst(", "bound(", "attr(", "ret(", "mono(", "nogenerics", "nowhere", "keepvis", "keepattrs", "desugar(",
+                optkw = ("subst(", "closurepat(", "fragment(", "addgenerics(", "sigsubst(", "bound(", "attr(", "ret(", "mono(", "nogenerics", "nowhere", "keepvis", "keepattrs", "desugar(",
                          "trusted", "rename(", "nobody", "novis")
                 ptoks, otoks = [], []
                 for t in toks:
@@ -302,6 +302,17 @@ def assemble_item(d, info, src, srcfile_label, log):
                 raise Undecided(f"{d.path}: subst: `{frm}` not found -- anchor lost")
             for m_ in hits:
                 add(start + m_.start(), start + m_.end(), to, "MONO")
+    for o in d.opts:
+        if o.startswith("closurepat("):
+            # `|(a, b)| { body }` -> `|p: T| { let (a, b) = p; body }` (Verus: closure parameters must be plain variables)
+            frm, to = [x.strip() for x in o[11:-1].split("=>")]
+            hits = list(re.finditer(rb"\|" + re.escape(frm.encode()) + rb"\|\s*\{", src[start:end]))
+            if len(hits) != 1:
+                raise Undecided(f"{d.path}: closurepat: closure `|{frm}| {{` found {len(hits)} times -- anchor lost")
+            m_ = hits[0]
+            ident = to.split(":")[0].strip()
+            add(start + m_.start() + 1, start + m_.start() + 1 + len(frm.encode()), to, "DESUGAR_CLOSURE_PAT")
+            add(start + m_.end(), start + m_.end(), f" let {frm} = {ident};", "DESUGAR_CLOSURE_PAT")
     # generic parameters that are being substituted are removed from the parameter list
     gp = it.get("gparams")
     gp_removed = []
